@@ -605,7 +605,10 @@ class Interp:
         if op == '-' and isinstance(a, ISet) and isinstance(b, ISet):
             return ISet([x for x in a.elems if not b.has(x)])
         if isinstance(a, Inst) or isinstance(b, Inst):
-            raise OutOfSubset(f'operator {op} on instance')
+            for x, name in ((a, {'+': '__add__', '-': '__sub__', '*': '__mul__', '/': '__truediv__'}.get(op)),):
+                if isinstance(x, Inst) and name and x.cls.has(name):
+                    return self.call(self.getattr(x, name), [b], {})
+            raise_py('TypeError', f'unsupported operand type(s) for {op}')
         return ops.arith(op, a, b)
 
     def ex_BinOp(self, e, env, mod):
